@@ -415,8 +415,28 @@ func (e *Env) call(x *ast.CallExpr) Val {
 			return Val{S: fmt.Sprintf("(forall ((%s %s)) (=> %s %s))", bound, cx.intSort(), rng, body.S), T: types.Typ[types.Bool]}
 		}
 		return Val{S: fmt.Sprintf("(exists ((%s %s)) (and %s %s))", bound, cx.intSort(), rng, body.S), T: types.Typ[types.Bool]}
+	case "forallKeys":
+		m := e.expr(x.Args[0])
+		mt, ok := m.T.Underlying().(*types.Map)
+		fl, ok2 := x.Args[1].(*ast.FuncLit)
+		if !ok || !ok2 || len(fl.Type.Params.List) != 1 || len(fl.Type.Params.List[0].Names) != 1 {
+			e.fail(x, "forallKeys(m, func(k K) bool {...})")
+		}
+		kn := fl.Type.Params.List[0].Names[0].Name
+		bound := cx.fresh("q_" + kn)
+		ne := e.with(kn, Val{S: bound, T: mt.Key()})
+		body := ne.block(fl.Body.List)
+		_, kh := cx.mapKeys(mt)
+		return Val{S: fmt.Sprintf("(forall ((%s %s)) (=> (select (select %s %s) %s) %s))", bound, cx.sortOf(mt.Key()), e.heap(kh), m.S, bound, body.S), T: types.Typ[types.Bool]}
 	case "fold":
 		return e.foldCall(x)
+	case "foldH":
+		return e.foldHCall(x)
+	case "push":
+		sl := e.expr(x.Args[0])
+		el := e.expr(x.Args[1])
+		sn := cx.sortOf(sl.T)
+		return Val{S: fmt.Sprintf("(mk_%s (store (arr_%s %s) (len_%s %s) %s) (%s (len_%s %s) %s))", sn, sn, sl.S, sn, sl.S, el.S, cx.op("+"), sn, sl.S, cx.num(1)), T: sl.T}
 	case "built":
 		// built(b) : the text written so far to a strings.Builder, as an Out history (only usable as fold argument)
 		v := e.expr(x.Args[0])
@@ -546,7 +566,7 @@ func (e *Env) applySpec(n ast.Node, sf *SpecFn, args []Val) Val {
 		// declared without body (uninterpreted spec symbol)
 		e.fail(n, "spec function without body: "+sf.Key)
 	}
-	if isUninterpreted(sf) {
+	if cx.opaqueHere(sf) {
 		cx.useSpec(sf.Key)
 		var as []string
 		for _, a := range args {
@@ -589,14 +609,23 @@ func (e *Env) applySpec(n ast.Node, sf *SpecFn, args []Val) Val {
 }
 
 func isUninterpreted(sf *SpecFn) bool {
+	return hasDirective(sf, "xvc:uninterpreted")
+}
+
+func hasDirective(sf *SpecFn, d string) bool {
 	if sf.Decl.Doc != nil {
 		for _, c := range sf.Decl.Doc.List {
-			if strings.Contains(c.Text, "xvc:uninterpreted") {
+			if strings.Contains(c.Text, d) {
 				return true
 			}
 		}
 	}
 	return false
+}
+
+// opaqueHere: functions defined with bit operations (xvc:bvonly) are uninterpreted symbols outside bit-vector mode.
+func (cx *Cx) opaqueHere(sf *SpecFn) bool {
+	return isUninterpreted(sf) || (!cx.bv && hasDirective(sf, "xvc:bvonly"))
 }
 
 func (cx *Cx) useSpec(key string) {
@@ -620,8 +649,48 @@ func (e *Env) block(stmts []ast.Stmt) Val {
 		}
 		return e.expr(s.Results[0])
 	case *ast.AssignStmt:
-		if s.Tok != token.DEFINE || len(s.Lhs) != 1 || len(s.Rhs) != 1 {
-			e.fail(s, "only single := definitions are allowed in spec functions")
+		if len(s.Lhs) != 1 || len(s.Rhs) != 1 || (s.Tok != token.DEFINE && s.Tok != token.ASSIGN) {
+			e.fail(s, "only single := / = statements are allowed in spec functions")
+		}
+		if s.Tok == token.ASSIGN {
+			// functional update of a local value variable: x = e   or   x.f = e
+			rhs := e.expr(s.Rhs[0])
+			switch l := s.Lhs[0].(type) {
+			case *ast.Ident:
+				old, ok := e.vars[l.Name]
+				if !ok {
+					e.fail(s, "assignment to unknown variable "+l.Name)
+				}
+				ln := e.cx.fresh("l_" + l.Name)
+				body := e.with(l.Name, Val{S: ln, T: old.T}).block(rest)
+				return Val{S: fmt.Sprintf("(let ((%s %s)) %s)", ln, rhs.S, body.S), T: body.T}
+			case *ast.SelectorExpr:
+				id, ok := l.X.(*ast.Ident)
+				if !ok {
+					e.fail(s, "only x.f = e on a local struct variable is allowed")
+				}
+				old, ok := e.vars[id.Name]
+				if !ok {
+					e.fail(s, "assignment to unknown variable "+id.Name)
+				}
+				st, ok := old.T.Underlying().(*types.Struct)
+				if !ok {
+					e.fail(s, "x.f = e needs a struct value variable (not a pointer)")
+				}
+				sn := e.cx.sortOf(old.T)
+				var fs []string
+				for i := 0; i < st.NumFields(); i++ {
+					if st.Field(i).Name() == l.Sel.Name {
+						fs = append(fs, rhs.S)
+					} else {
+						fs = append(fs, fmt.Sprintf("(%s_%s %s)", sn, st.Field(i).Name(), old.S))
+					}
+				}
+				ln := e.cx.fresh("l_" + id.Name)
+				body := e.with(id.Name, Val{S: ln, T: old.T}).block(rest)
+				return Val{S: fmt.Sprintf("(let ((%s (mk_%s %s))) %s)", ln, sn, strings.Join(fs, " "), body.S), T: body.T}
+			}
+			e.fail(s, "unsupported assignment target in spec function")
 		}
 		v := e.expr(s.Rhs[0])
 		if isUntyped(v.T) {
@@ -719,6 +788,59 @@ func (e *Env) block(stmts []ast.Stmt) Val {
 	return Val{}
 }
 
+// foldHCall translates foldH(stepByte, stepStr, init, x): a fold over the write history of a strings.Builder
+// (WriteByte -> stepByte, WriteString -> stepStr); for a string x the history is s_hist(x).
+func (e *Env) foldHCall(x *ast.CallExpr) Val {
+	cx := e.cx
+	if len(x.Args) != 4 {
+		e.fail(x, "foldH(stepByte, stepStr, init, x)")
+	}
+	var keys []string
+	for i := 0; i < 2; i++ {
+		var fobj types.Object
+		switch f := x.Args[i].(type) {
+		case *ast.Ident:
+			fobj = e.info.Uses[f]
+		case *ast.SelectorExpr:
+			fobj = e.info.Uses[f.Sel]
+		}
+		fn, _ := fobj.(*types.Func)
+		if fn == nil {
+			e.fail(x, "foldH needs named spec step functions")
+		}
+		key := fn.Pkg().Name() + "." + fn.Name()
+		if cx.w.SpecDecls[key] == nil {
+			e.fail(x, "foldH step "+key+" is not a spec function")
+		}
+		keys = append(keys, key)
+	}
+	init := e.expr(x.Args[2])
+	arg := e.expr(x.Args[3])
+	cx.declOut()
+	cx.useSpec(keys[0])
+	cx.useSpec(keys[1])
+	name := "foldH_" + sanitize(keys[0]) + "_" + sanitize(keys[1])
+	if cx.foldHUsed == nil {
+		cx.foldHUsed = map[string][3]string{}
+	}
+	if _, ok := cx.foldHUsed[name]; !ok {
+		cx.foldHUsed[name] = [3]string{keys[0], keys[1], cx.sortOf(init.T)}
+		cx.foldHOrd = append(cx.foldHOrd, name)
+	}
+	cx.useSpec("foldH:" + name)
+	if ce, ok := x.Args[2].(*ast.CallExpr); ok && len(ce.Args) == 0 {
+		cx.noteInit(name, init.S)
+	}
+	if isBuilder(arg.T) {
+		return Val{S: fmt.Sprintf("(%s %s %s)", name, init.S, arg.S), T: init.T}
+	}
+	if !isString(arg.T) {
+		e.fail(x, "foldH over "+arg.T.String())
+	}
+	cx.declUF("s_hist", "(declare-fun s_hist (Str) Out)")
+	return Val{S: fmt.Sprintf("(%s %s (s_hist %s))", name, init.S, arg.S), T: init.T}
+}
+
 // foldCall translates fold(step, init, x): x is a string, or built(b) for a strings.Builder.
 func (e *Env) foldCall(x *ast.CallExpr) Val {
 	cx := e.cx
@@ -744,6 +866,9 @@ func (e *Env) foldCall(x *ast.CallExpr) Val {
 	init := e.expr(x.Args[1])
 	arg := e.expr(x.Args[2])
 	fi := cx.foldFor(sf)
+	if ce, ok := x.Args[1].(*ast.CallExpr); ok && len(ce.Args) == 0 {
+		cx.noteInit(fi.nameO, init.S)
+	}
 	if isBuilder(arg.T) {
 		return Val{S: fmt.Sprintf("(%s %s %s)", fi.nameO, init.S, arg.S), T: init.T}
 	}
@@ -755,6 +880,7 @@ func (e *Env) foldCall(x *ast.CallExpr) Val {
 
 func (cx *Cx) foldFor(sf *SpecFn) *foldInfo {
 	if fi := cx.foldUsed[sf.Key]; fi != nil {
+		cx.useSpec("fold:" + sf.Key)
 		return fi
 	}
 	sig := sf.Obj.Type().(*types.Signature)
@@ -764,8 +890,12 @@ func (cx *Cx) foldFor(sf *SpecFn) *foldInfo {
 	fi := &foldInfo{step: sf.Key, sort: st, nameS: "foldS_" + sanitize(sf.Key), nameO: "foldO_" + sanitize(sf.Key)}
 	cx.foldUsed[sf.Key] = fi
 	cx.foldOrd = append(cx.foldOrd, sf.Key)
+	cx.useSpec("fold:" + sf.Key)
 	return fi
 }
+
+// closeSpecUse makes specUsed transitively closed.
+func (cx *Cx) closeSpecUse() { cx.specDefs() }
 
 // specDefs emits the definitions of all used spec functions (transitively), folds included.
 func (cx *Cx) specDefs() (string, error) {
@@ -774,14 +904,57 @@ func (cx *Cx) specDefs() (string, error) {
 		sig  string // "(name ((x S)...) R)"
 		body string
 		deps map[string]bool
+		raw  bool
 	}
 	defs := map[string]*def{}
 	var order []string
 	var firstErr error
+	cx.specTodo = nil
+	for k := range cx.specUsed {
+		cx.specTodo = append(cx.specTodo, k)
+	}
+	sortStrings(cx.specTodo)
 	for len(cx.specTodo) > 0 {
 		key := cx.specTodo[0]
 		cx.specTodo = cx.specTodo[1:]
 		if defs[key] != nil {
+			continue
+		}
+		if strings.HasPrefix(key, "fold:") {
+			fi := cx.foldUsed[key[5:]]
+			is := cx.intSort()
+			step := specSMTName(fi.step)
+			le, minus := "<=", "-"
+			if cx.bv {
+				le, minus = "bvsle", "bvsub"
+			}
+			d := &def{key: key, deps: map[string]bool{fi.step: true, key: true}, raw: true}
+			// Folds are uninterpreted symbols constrained by ground unfolding facts emitted at every builder write
+			// (unfoldFacts) -- recursive definitions made the solvers an order of magnitude slower and are not needed:
+			// every fact used about a fold is a consequence of its definition.
+			_, _, _, _ = is, step, le, minus
+			d.body = fmt.Sprintf("(declare-fun %s (%s Str %s) %s)\n(declare-fun %s (%s Out) %s)\n", fi.nameS, fi.sort, is, fi.sort, fi.nameO, fi.sort, fi.sort)
+			defs[key] = d
+			order = append(order, key)
+			cx.useSpec(fi.step)
+			if defs[fi.step] == nil {
+				cx.specTodo = append(cx.specTodo, fi.step)
+			}
+			continue
+		}
+		if strings.HasPrefix(key, "foldH:") {
+			name := key[6:]
+			dd := cx.foldHUsed[name]
+			d := &def{key: key, deps: map[string]bool{dd[0]: true, dd[1]: true, key: true}, raw: true}
+			d.body = fmt.Sprintf("(declare-fun %s (%s Out) %s)\n", name, dd[2], dd[2])
+			defs[key] = d
+			order = append(order, key)
+			for _, k := range []string{dd[0], dd[1]} {
+				cx.useSpec(k)
+				if defs[k] == nil {
+					cx.specTodo = append(cx.specTodo, k)
+				}
+			}
 			continue
 		}
 		sf := cx.w.SpecDecls[key]
@@ -799,7 +972,7 @@ func (cx *Cx) specDefs() (string, error) {
 		}
 		rs := cx.sortOf(sig.Results().At(0).Type())
 		d.sig = fmt.Sprintf("(%s (%s) %s)", specSMTName(key), strings.Join(ps, " "), rs)
-		if isUninterpreted(sf) {
+		if cx.opaqueHere(sf) {
 			var pss []string
 			for i := 0; i < sig.Params().Len(); i++ {
 				pss = append(pss, cx.sortOf(sig.Params().At(i).Type()))
@@ -904,6 +1077,10 @@ func (cx *Cx) specDefs() (string, error) {
 	for _, comp := range sccs { // Tarjan yields reverse topological order: dependencies first
 		if len(comp) == 1 {
 			d := defs[comp[0]]
+			if d.raw {
+				b.WriteString(d.body)
+				continue
+			}
 			if d.body == "" {
 				b.WriteString(d.sig + "\n")
 				continue
@@ -921,18 +1098,6 @@ func (cx *Cx) specDefs() (string, error) {
 		}
 		b.WriteString("(define-funs-rec (" + strings.Join(sigs, " ") + ")\n  (" + strings.Join(bodies, "\n   ") + "))\n")
 	}
-	// folds
-	for _, k := range cx.foldOrd {
-		fi := cx.foldUsed[k]
-		is := cx.intSort()
-		step := specSMTName(fi.step)
-		le, minus := "<=", "-"
-		if cx.bv {
-			le, minus = "bvsle", "bvsub"
-		}
-		fmt.Fprintf(&b, "(define-fun-rec %s ((s0 %s) (s Str) (k %s)) %s (ite (%s k %s) s0 (%s (%s s0 s (%s k %s)) (s_at s (%s k %s)))))\n", fi.nameS, fi.sort, is, fi.sort, le, cx.num(0), step, fi.nameS, minus, cx.num(1), minus, cx.num(1))
-		fmt.Fprintf(&b, "(define-fun-rec %s ((s0 %s) (o Out)) %s (ite ((_ is o_nil) o) s0 (ite ((_ is o_b) o) (%s (%s s0 (o_b_p o)) (o_b_c o)) (%s (%s s0 (o_s_p o)) (o_s_s o) (s_len (o_s_s o))))))\n", fi.nameO, fi.sort, fi.sort, step, fi.nameO, fi.nameS, fi.nameO)
-	}
 	return b.String(), firstErr
 }
 
@@ -942,4 +1107,59 @@ func sortStrings(s []string) {
 			s[j], s[j-1] = s[j-1], s[j]
 		}
 	}
+}
+
+func (cx *Cx) noteInit(fold, init string) {
+	if cx.foldInits == nil {
+		cx.foldInits = map[string][]string{}
+	}
+	for _, i := range cx.foldInits[fold] {
+		if i == init {
+			return
+		}
+	}
+	cx.foldInits[fold] = append(cx.foldInits[fold], init)
+}
+
+// unfoldFacts: ground unfolding of every fold in use for one builder write (o_new = o_old + operand).
+func (cx *Cx) unfoldFacts(oNew, oOld, kind, operand string) []string {
+	var out []string
+	for _, k := range cx.foldOrd {
+		fi := cx.foldUsed[k]
+		for _, init := range cx.foldInits[fi.nameO] {
+			if kind == "b" {
+				out = append(out, fmt.Sprintf("(assert (= (%s %s %s) (%s (%s %s %s) %s)))", fi.nameO, init, oNew, specSMTName(fi.step), fi.nameO, init, oOld, operand))
+			} else {
+				out = append(out, fmt.Sprintf("(assert (= (%s %s %s) (%s (%s %s %s) %s (s_len %s))))", fi.nameO, init, oNew, fi.nameS, fi.nameO, init, oOld, operand, operand))
+			}
+		}
+	}
+	for _, name := range cx.foldHOrd {
+		d := cx.foldHUsed[name]
+		for _, init := range cx.foldInits[name] {
+			step := specSMTName(d[0])
+			if kind != "b" {
+				step = specSMTName(d[1])
+			}
+			out = append(out, fmt.Sprintf("(assert (= (%s %s %s) (%s (%s %s %s) %s)))", name, init, oNew, step, name, init, oOld, operand))
+		}
+	}
+	return out
+}
+
+// foldBaseFacts: fold(init, empty history) = init, and the String() link for the known inits.
+func (cx *Cx) foldBaseFacts() []string {
+	var out []string
+	for _, k := range cx.foldOrd {
+		fi := cx.foldUsed[k]
+		for _, init := range cx.foldInits[fi.nameO] {
+			out = append(out, fmt.Sprintf("(assert (= (%s %s o_nil) %s))", fi.nameO, init, init))
+		}
+	}
+	for _, name := range cx.foldHOrd {
+		for _, init := range cx.foldInits[name] {
+			out = append(out, fmt.Sprintf("(assert (= (%s %s o_nil) %s))", name, init, init))
+		}
+	}
+	return out
 }
